@@ -50,7 +50,7 @@ CLAIMED = {
     "C04": dict(
         text="Coq theorems for arbitrary unit-modulus site phases: covariant gradient and Laplacian transform covariantly, "
              "supercurrent invariant, per-site Euler update covariant, and a whole solve step (pinned rows included) is covariant: "
-             "same verdict, psi' = g psi', same mu, Js, Jn. Correspondence: operators built for A + grad chi vs model gauge_links; "
+             "same verdict, psi' = g psi', same mu, Js, Jn; run_covariant lifts this to every step of a run (psi and mu threaded, time-dependent links). Correspondence: operators built for A + grad chi vs model gauge_links; "
              "oracle on implementation operators and on pairs of real runs with uniformly shifted A started from gauge-related seeds.",
         note="Coq kernel; stdlib real-number axioms; exp/cos/sin only through unit modulus (g passed as data); run-level induction over "
              "steps is exercised by run pairs, the per-step theorem is proved.",
@@ -59,7 +59,7 @@ CLAIMED = {
     "C06": dict(
         text="Coq theorems: pinned rows are identity rows for any links; psi = 0 on a pinned site is a fixed point of the update for "
              "every mu, eps, dt (so every step and screening iteration keeps it); a configured non-zero value is re-imposed after the "
-             "update (held exactly); rows outside the pinned set equal the unpinned rows; with terminal_psi = None nothing is pinned. "
+             "update (held exactly); both lifted to every step of a run (run_terminal_zero, run_pinned_value_held); rows outside the pinned set equal the unpinned rows; with terminal_psi = None nothing is pinned. "
              "Correspondence: update calls vs Model.Step.step with the pinned set; oracle on every update of real runs for "
              "terminal_psi in {0, None, 1, 0.5+0.5j, 0.3}, screening on/off.",
         note="Coq kernel; stdlib real-number axioms; SuperLU oracle.",
@@ -68,7 +68,7 @@ CLAIMED = {
     "C17": dict(
         text="Coq theorems in exact arithmetic for every mesh: Laplacians annihilate constants, (psi=1, eps=1, lap=0, mu=0) is a "
              "fixed point of the site update for every gamma, u != 0, dt, and a full step maps the uniform state to itself with "
-             "Js = Jn = mu = 0. Correspondence: update calls vs Model.Step.step; oracle on every update of undriven real runs "
+             "Js = Jn = mu = 0; stationary_forever: every step of a run with any dt sequence; dt_grows_to_max: dt_init up to step window+1, dt_max ever after. Correspondence: update calls vs Model.Step.step; oracle on every update of undriven real runs "
              "(irregular/smoothed/holed meshes, unpinned terminals, 4 gamma, 2 u, adaptive on/off, screening) incl. growth of dt to dt_max.",
         note="Exact theorem; binary64 noise bounded by measurement (1e-11) with dt_max inside the scheme's CFL region (stated guard).",
         technique="Coq proof over R + vm_compute step correspondence + stationarity oracle",
@@ -77,7 +77,7 @@ CLAIMED = {
         text="Coq theorems for every save interval k >= 1, every answering update function, initial state and stop time: the loop "
              "produces exactly run_frames N (N = first step whose time reaches the stop time); frames at 0,k,2k,... and N; a frame "
              "labelled s holds the state after exactly s updates and the time accumulated by the first s steps; per-step records "
-             "concatenate to one record per step in order; refutation of the loop as found (stop test after the update). "
+             "concatenate to one record per step in order; Solution.times computed from the per-step dt equals the frame times (times_are_frame_times / times_from_records); thermalisation leaves no trace (thermalisation_unrecorded); refutation of the loop as found (stop test after the update). "
              "Correspondence: the REAL Runner + DataHandler (HDF5) driven by a scripted update, exhaustively over k in 1..N+2, "
              "N in 0..12, 4 step scripts, thermalisation, stop position, probe/screening columns (3190 histories), every frame and "
              "buffer vs Model.Runner.run (exact); readers DynamicsData.from_hdf5 and Solution.times vs the model; real tdgl.solve runs.",
@@ -109,7 +109,7 @@ CLAIMED = {
         design="7/C15"),
     "C12": dict(
         text="Coq theorems: every step used is positive and <= the effective maximum and the invariant is preserved by every step "
-             "(any refusal pattern, any history of |d|psi|^2| values); adaptivity off => every step equals dt_init and a refusal "
+             "(any refusal pattern, any history of |d|psi|^2| values) and hence in every whole history (all_steps_bounded); adaptivity off => every step equals dt_init and a refusal "
              "raises; after the warm-up window the proposal equals min(1/2 (dt + dt_init/delta), dt_max) with delta = "
              "max(1e-10, windowed mean); the step used is tentative * mult^r with r = number of refusals <= max_retries+1; "
              "exhausting the retries raises. Correspondence: real TDGLSolver.update stepped with injected refusals over random "
@@ -166,7 +166,7 @@ CLAIMED = {
         design="7/C19"),
     "C18": dict(
         text="Coq theorems for every vertex list: the points setter stores a closed, counter-clockwise ring and is idempotent; "
-             "translation and rotation preserve the signed area of a closed ring, scaling about any origin multiplies it by "
+             "membership (crossing test) is preserved when shape and point are translated or scaled (positive factors) together; translation and rotation preserve the signed area of a closed ring, scaling about any origin multiplies it by "
              "fx*fy (reflections included), reversal flips the orientation. Correspondence: stored vertices vs "
              "Model.Geom.normalise (bit-exact) and transformed vertices vs the model's affine maps (PrimFloat); set-operation "
              "results vs the model's crossing-number test evaluated EXACTLY over Q on the operands, combined pointwise. Oracle: "
